@@ -16,6 +16,8 @@ import CnbVerif.Driver.C16
 import CnbVerif.Driver.C06
 import CnbVerif.Driver.C15
 import CnbVerif.Driver.C12
+import CnbVerif.Driver.C11
+import CnbVerif.Driver.C20
 /-!
 Model driver. One request per line, tab separated: `<property> \t <input fields…> \t <implementation observation>`.
 Answer: `<model observation> \t <spec verdict on the implementation's observation>`.
@@ -47,6 +49,8 @@ def dispatch (line : String) : String :=
         else if prop = "c06" then DriverC06.handle fields obs
         else if prop = "c15" then DriverC15.handle fields obs
         else if prop = "c12" then DriverC12.handle fields obs
+        else if prop = "c11" then DriverC11.handle fields obs
+        else if prop = "c20" then DriverC20.handle fields obs
         else ("bad-op", "bad-op")
       m ++ "\t" ++ v
     | [] => "bad-op\tbad-op"
